@@ -88,7 +88,7 @@ MODES = ["stream", "stream-gz", "jsonfile", "split", "jsonl", "json", "csv", "li
 
 
 def budget(tier):
-    return n_systematic() + (40000 if tier == "quick" else 1500000)
+    return n_systematic() + (28000 if tier == "quick" else 1500000)
 
 
 def wall_cap(tier):
@@ -137,6 +137,15 @@ def gen_source(rng, kind, idx, tier="quick", only=None):
         if kind == "readerr":
             src["read_error_at"] = rng.choice([0, 1, 1, 2, 3])
             src["read_buffer"] = rng.choice([16, 64, 8192])
+    elif kind == "csv":
+        # a CSV file: header row, every value is text (csv/reader records); an empty one is a source that fails at open
+        # (at least two columns and plain tokens, so that the reader's dialect sniffing - C20's business - settles on ",")
+        cols = rng.sample(["s", "q", "extra", "n"], rng.randrange(2, 5))
+        src["cols"] = cols
+        src["rows"] = [[rng.choice(["x", "y", "z", "q", "e1", "7", "ab"]) for _ in cols] for _ in range(n)]
+    elif kind == "avro":
+        src["recs"] = [gen_rec(rng, i, "B") for i in range(n)]  # one descriptor per Avro file
+        src["codec"] = rng.choice(["none", "none", "gz"])
     elif kind == "plainjson":
         # plain JSON lines (not written by flow.record): the reader derives a json/record descriptor per line
         lines = []
@@ -211,8 +220,10 @@ def generate(rng, tier, index):
     sources = []
     have_stdin = False
     for i in range(n):
-        kind = rng.choice(["good", "good", "good", "json", "stdin", "plainjson"] + FAULT_KINDS)
-        if kind == "plainjson" and (only or SELECTORS[opts["sel"]][0] not in (None, "r.s == 'x'", "r.q == 'q' or r.s == 'z'", "r.f", "r.extra == 'e1' or r.n == 4")):
+        kind = rng.choice(["good", "good", "good", "json", "stdin", "plainjson", "csv", "avro"] + FAULT_KINDS)
+        if kind == "avro" and only:
+            kind = "good"
+        if kind in ("plainjson", "csv") and (only or SELECTORS[opts["sel"]][0] not in (None, "r.s == 'x'", "r.q == 'q' or r.s == 'z'", "r.f", "r.extra == 'e1' or r.n == 4")):
             kind = "json"  # ordering comparisons on loosely typed JSON values are selector semantics, not slicing
         if kind == "stdin":
             if have_stdin:
@@ -283,6 +294,25 @@ def build_source(w, src, descs):
     if kind == "dir":
         w.fs.makedirs(base + ".records", exist_ok=True)
         return base + ".records", []
+    if kind == "csv":
+        from flow.record import RecordDescriptor
+
+        path = base + ".csv"
+        lines = [",".join(src["cols"])] + [",".join(r) for r in src["rows"]]
+        w.fs.put(path, ("\r\n".join(lines) + "\r\n").encode())
+        d = RecordDescriptor("csv/reader", [("string", c) for c in src["cols"]])
+        return path, [d(*r) for r in src["rows"]]
+    if kind == "avro":
+        from flow.record import RecordWriter as _RW
+
+        recs = [make_record(descs, r) for r in src.get("recs", [])]
+        path = base + ".avro" + (".gz" if src.get("codec") == "gz" else "")
+        ww = _RW("avro://" + path)
+        for r in recs:
+            ww.write(r)
+        ww.flush()
+        ww.close()
+        return "avro://" + path if path.endswith(".gz") else path, recs
     if kind == "plainjson":
         from flow.record import RecordDescriptor
 
